@@ -11,9 +11,9 @@ CONSTANTS
   AllowCancel = FALSE
   Reconnect = TRUE
   MaxAttempts = 2
-  FixExitOrder = FALSE
+  FixExitOrder = TRUE
   FixReadErr = FALSE
-  FixStaleDelete = FALSE
+  FixStaleDelete = TRUE
 INVARIANT OwnResult
 INVARIANT MailboxOwn
 INVARIANT AtMostOnce
